@@ -46,7 +46,7 @@ META = {
     "level_note": "Only SQLite executes; for postgresql/mysql/mssql/oracle/default the claim is about compiled SQL, bind signature and construct_params output, not server results. Statement space is the vf.gen.stmt_gb grammar (selects, joins, subqueries, CTEs, compounds, DML with RETURNING, text(), ORM entities with loader options / with_loader_criteria / aliased); constructs outside it are not covered. Runs in cext and purepy modes (cache-key anon_map lives in sql/_util_cy).",
     "design_ref": "DESIGN.md section 4, C02",
     "rule": "case = one statement judged by K+P, or one statement executed under A/B/C; non-trivial = it joined a key group holding >=2 statements with different literal values, or it was executed on a warm cache hit; distinct by (spec, literal build index)",
-    "shards": {"quick": 8, "thorough": 16},
+    "shards": {"quick": 8, "thorough": 8},   # x2 modes = 16 processes, one wave on 16 cores
     "modes": ["cext", "purepy"],
     "soft_s": {"quick": 90, "thorough": 800},
     "exhaustive": {"quick": False, "thorough": False},
